@@ -22,7 +22,11 @@ Tmps    == {"absent", "dir-empty", "dir-with-file", "file"}
 Invalid == {"none", "-evil.admin-sup", "@boss.admin-sup", ".hidden.user-sup", "bad%name.user-sup", ".admin-sup", "KELVINarl.admin-sup"}
 
 VARIABLE d
-Cases == [a : Slots, b : Slots, other : Others, sub : Subdirs, tmp : Tmps, inv : Invalid]
+\* the second name is unrelated to the first ("b") or a dotted extension of it ("a.b": its files sort between a.admin and
+\* a.user, and a prefix match on "a." finds them)
+Cases == [a : Slots, b : Slots, other : Others, sub : Subdirs, tmp : Tmps, inv : Invalid, names : {"unrelated"}]
+         \cup {c \in [a : Slots, b : Slots, other : {"none"}, sub : {"none"}, tmp : Tmps, inv : Invalid, names : {"dotted-neighbour"}] :
+                   c.b # "absent" /\ c.a # "absent"}
 
 HasAdminSup(s) == s \in {"admin-sup", "both-sup", "admin-sup+user-unsup"}
 Dup(s)         == s \in {"both-sup", "admin-sup+user-unsup"}
